@@ -496,7 +496,15 @@ func runChain(c *core.Ctx, idx int64, r *core.Rand) {
 					c.Count("chain:stopped-after-a-violation")
 					return
 				}
-				if !introducesDynamic(ares, cres) && r.Chance(3, 4) {
+				if !setCountsPossible(ares, cres) {
+					// mon.Admits reads sets weakly (necessary conditions only), so it lets an abstract set with a
+					// stored member stand for an EMPTY concrete set - which is what the listed finding F-112a
+					// (setproduct refines / collapses to "at least one element") produces. Such a result is reported
+					// at its own step where the relation sees it; nothing sound can be built on it, and feeding it to
+					// a later function would only report the same defect again under that function's name
+					// (thorough, seed 1: length(SetVal([unknown tuple])) = 1 for the concrete empty set).
+					c.Count("chain:abstract-result-too-narrow-to-build-on(set member count)")
+				} else if !introducesDynamic(ares, cres) && r.Chance(3, 4) {
 					abs = ares
 				}
 			}
@@ -600,4 +608,52 @@ func (ch *chain) recheck(c *core.Ctx, r *core.Rand, site string) bool {
 		}
 	}
 	return okAll
+}
+
+// setCountsPossible: wherever abs holds a known set, the number of members of the corresponding concrete set is
+// one that the stored members allow: at most the stored count, at least the number of wholly known members, and at
+// least one as soon as anything is stored.
+func setCountsPossible(abs, conc cty.Value) bool {
+	abs, _ = abs.Unmark()
+	conc, _ = conc.Unmark()
+	if !abs.IsKnown() || abs.IsNull() || !conc.IsKnown() || conc.IsNull() {
+		return true
+	}
+	aty, cty_ := abs.Type(), conc.Type()
+	switch {
+	case aty.IsSetType() && cty_.IsSetType():
+		n, known := 0, 0
+		for it := abs.ElementIterator(); it.Next(); {
+			_, e := it.Element()
+			n++
+			if e.IsWhollyKnown() {
+				known++
+			}
+		}
+		l := conc.LengthInt()
+		if l > n || l < known || (n >= 1 && l < 1) {
+			return false
+		}
+		return true
+	case (aty.IsListType() || aty.IsTupleType()) && (cty_.IsListType() || cty_.IsTupleType()):
+		if abs.LengthInt() != conc.LengthInt() {
+			return true
+		}
+		ai, ci := abs.ElementIterator(), conc.ElementIterator()
+		for ai.Next() && ci.Next() {
+			_, a := ai.Element()
+			_, b := ci.Element()
+			if !setCountsPossible(a, b) {
+				return false
+			}
+		}
+	case (aty.IsMapType() || aty.IsObjectType()) && (cty_.IsMapType() || cty_.IsObjectType()):
+		cm := conc.AsValueMap()
+		for k, a := range abs.AsValueMap() {
+			if b, ok := cm[k]; ok && !setCountsPossible(a, b) {
+				return false
+			}
+		}
+	}
+	return true
 }
